@@ -114,7 +114,7 @@ def run(pid, tier):
              pipe_to=[str(RDV), 'btpe-drive', '--out', str(h2)])
     require_ok(r8, 'MCH2pe')
     s8 = json.loads(r8.consumer_out.strip().splitlines()[-1])
-    if s8['events'] < 80:
+    if s8['events'] < 150:
         raise ToolError('btpe-drive (H2PE): too few events: %s' % s8)
     r9 = tlc('TraceBtpe', 'TraceBtpe.cfg', pid, 'h2pe_trace', trace_mode=True, env={'TRACE': h2}, timeout=1200, heap='4g')
     require_ok(r9, 'TraceBtpe (H2PE)')
@@ -176,7 +176,7 @@ def run(pid, tier):
         'BTPE is decided POINTWISE in its two main regions: at the anchors of spec/BtpeTable.tla (6 parameter points incl. a flipped one and three with the squeeze / Stirling path) the proposal of a region-2 first word is the table\'s y and '
         'the accepting second words are a prefix of relative length (f(y)/f(m) - 1 + |x - x_m|/p1)/c with f the binomial pmf itself (2^-28), the triangle map of region 1 is exact (2^-44), and in the exponential tails (regions 3, 4) the second words returning y after an anchor\'s first word form the interval [exp(lambda (y - x_l)), min(exp(lambda (y+1-x_l)), f(y)/f(m)/((u-p2) lambda))) resp. its mirror image (2^-28); everything between anchors is NOT decided',
         'H2PE is decided POINTWISE in its central region: at the anchors of spec/H2peTable.tla (8 parameter points incl. all reductions K <-> N-K, n <-> N-n and both evaluation paths) the value returned for a region-1 first word is the table\'s and '
-        'the accepting second words are a prefix of relative length f(y)/f(m) with f the hypergeometric pmf itself (2^-22); the exponential tails and everything between anchors are NOT decided',
+        'the accepting second words are a prefix of relative length f(y)/f(m) with f the hypergeometric pmf itself (2^-22), and in the exponential tails (regions 2, 3) the second words returning y form the documented interval, both ends measured (2^-22); everything between anchors is NOT decided',
         'Poisson PD (lambda >= 12) is decided POINTWISE in its main path: at the anchors of spec/PdTable.tla (7 values of lambda, k within 3.2 sigma below l, f64 and f32) the uniform words that return k after a normal deviate with floor k are a suffix of relative length '
         '1 - min((lambda-k)^3/d, 1 - pmf(k)/hat(k)) with pmf the Poisson pmf itself (2^-24 / 2^-15); the immediate-acceptance step I is structural (k >= l returns without a uniform draw); the double-exponential branch (steps E / H) likewise at 5 exponential deviates per lambda: the accepted uniform words form an interval around the middle word with half-lengths (pmf(k2) - hat(k2)) exp(e) / (2c) (2^-19 / 2^-12); everything between anchors is NOT decided',
         'Zipf<f64> / Zeta<f64> are decided POINTWISE at the anchors of spec/Rej64Table.tla (13 parameter points, first uniform j/16 and, for Zeta, proposals up to 2^320): the proposal is the table\'s and the accepting second uniform words are a prefix of the documented relative length (2^-40); between the anchors NOT decided',
